@@ -55,6 +55,9 @@ pub struct SyncCfg {
 	pub compact_server: bool,
 	/// iterations during which faults are injected
 	pub fault_ticks: u64,
+	/// one answer of the faulty phase is a byzantine output segment with a redundant hash (see below);
+	/// such a run is judged for safety only
+	pub byz_redundant: bool,
 	/// the serving node holds the winning branch up to this height (0: all of it). State-sync runs
 	/// need a multiple of 10: AutomatedTesting's state sync threshold equals its horizon (20), so the
 	/// archive header (tip - 20 rounded down to a multiple of 10) is inside the horizon - as it always is
@@ -79,6 +82,8 @@ fn status_name(s: &SyncStatus) -> &'static str {
 		SyncStatus::NoSync => "NoSync",
 		SyncStatus::AwaitingPeers(_) => "AwaitingPeers",
 		SyncStatus::HeaderSync { .. } => "HeaderSync",
+		SyncStatus::TxHashsetPibd { errored: true, .. } => "TxHashsetPibd(errored)",
+		SyncStatus::TxHashsetPibd { aborted: true, .. } => "TxHashsetPibd(aborted)",
 		SyncStatus::TxHashsetPibd { .. } => "TxHashsetPibd",
 		SyncStatus::TxHashsetDownload(_) => "TxHashsetDownload",
 		SyncStatus::TxHashsetSetup { .. } => "TxHashsetSetup",
@@ -281,6 +286,8 @@ pub fn sync_loop_run(world: &World, seed: u64, tag: &str, cfg: &SyncCfg) -> Sync
 		let mut done = false;
 		let mut last_status = String::new();
 		let mut nosync_behind = 0u64;
+		let mut redundant_injected = false;
+		let mut after_redundant = 0u64;
 		while tick < max_ticks {
 			tick += 1;
 			let faults_on = cfg.faulty && tick <= cfg.fault_ticks;
@@ -473,6 +480,29 @@ pub fn sync_loop_run(world: &World, seed: u64, tag: &str, cfg: &SyncCfg) -> Sync
 					let an = describe(&a);
 					let ver = sp_r.get(0).map(|p| p.version).unwrap_or_else(grin_core::ser::ProtocolVersion::local);
 					let mut att: Vec<u8> = vec![];
+					let a = match a {
+						// a byzantine answer that segment validation does not bind (C16's quantifier names it:
+						// "redundant extra hashes are not rejected by validation and are covered by the
+						// final-state clause instead"): the honest output segment plus one hash at the position
+						// right behind it. It validates - the root reconstruction never reads that hash - and is
+						// applied as a pruned subtree that is not there. Whatever the loop makes of it, it must
+						// never finalise a state other than the reference state. (What it does make of it: it
+						// asks for the same two segments for ever, see DESIGN 9.4 - completion is therefore not
+						// demanded of these runs.)
+						Message::OutputSegment(x) if cfg.byz_redundant && faults_on && !redundant_injected => {
+							redundant_injected = true;
+							bump!(out.faults, "answer_with_redundant_hash");
+							let grin_p2p::msg::OutputSegmentResponse { response, output_bitmap_root } = x;
+							let grin_p2p::msg::SegmentResponse { block_hash, segment } = response;
+							let (id, mut hp, mut hs, lp, ld, proof) = segment.parts();
+							let next = hp.iter().chain(lp.iter()).cloned().max().unwrap_or(0) + 1;
+							hp.push(next);
+							hs.push(grin_core::core::hash::Hash::from_vec(&rng.bytes(32)));
+							let segment = grin_core::core::Segment::from_parts(id, hp, hs, lp, ld, proof);
+							Message::OutputSegment(grin_p2p::msg::OutputSegmentResponse { response: grin_p2p::msg::SegmentResponse { block_hash, segment }, output_bitmap_root })
+						}
+						other => other,
+					};
 					let frame = match a {
 						Message::TxHashSetArchive(x) => {
 							att = std::mem::take(&mut sp_s[0].attachment);
@@ -518,6 +548,9 @@ pub fn sync_loop_run(world: &World, seed: u64, tag: &str, cfg: &SyncCfg) -> Sync
 			// requested
 			let status = r.sync.status();
 			let sname = status_name(&status);
+			if matches!(status, SyncStatus::TxHashsetPibd { errored: true, .. }) {
+				bump!(out.probes, "pibd_round_errored_restart");
+			}
 			if matches!(status, SyncStatus::TxHashsetPibd { .. }) {
 				pibd_seen = true;
 				bump!(out.probes, "sync_ticks_in_pibd");
@@ -657,6 +690,12 @@ pub fn sync_loop_run(world: &World, seed: u64, tag: &str, cfg: &SyncCfg) -> Sync
 			} else {
 				nosync_behind = 0;
 			}
+			if redundant_injected {
+				after_redundant += 1;
+				if after_redundant > 150 {
+					break;
+				}
+			}
 			// 9. done?
 			if matches!(status, SyncStatus::NoSync) && d.head_height == wh && tick > 6 {
 				done = true;
@@ -664,6 +703,10 @@ pub fn sync_loop_run(world: &World, seed: u64, tag: &str, cfg: &SyncCfg) -> Sync
 			}
 		}
 		out.ticks = tick;
+		if !done && redundant_injected {
+			bump!(out.probes, "sync_never_completed_after_redundant_hash_segment");
+			break 'run;
+		}
 		if !done {
 			result = Some(v("no-progress", format!("the sync loop did not finish within {} iterations ({} of them fault free, {:.0} simulated seconds): status {}, corrupted frames delivered {}", max_ticks, max_ticks - cfg.fault_ticks, simclock::elapsed().as_secs_f64(), last_status, corrupt_delivered)));
 			break 'run;
@@ -771,6 +814,7 @@ pub fn debug_run(seed: u64, mode: &str) {
 		compact_server: long,
 		fault_ticks: if mode.contains("faulty") { 150 } else { 0 },
 		serve_height: if mode.contains("body") { 0 } else { state_sync_height(&world, !mode.contains("zip")) },
+		byz_redundant: mode.contains("byz"),
 	};
 	let t1 = std::time::Instant::now();
 	let out = sync_loop_run(&world, seed ^ 0x55, "syncdbg", &cfg);
@@ -792,7 +836,7 @@ pub fn debug_run(seed: u64, mode: &str) {
 
 fn cfg_json(cfg: &SyncCfg) -> Value {
 	serde_json::json!({"prop": cfg.prop, "pre": cfg.pre, "pibd_peer": cfg.pibd_peer, "faulty": cfg.faulty, "restarts": cfg.restarts,
-		"compact_server": cfg.compact_server, "fault_ticks": cfg.fault_ticks, "serve_height": cfg.serve_height})
+		"compact_server": cfg.compact_server, "fault_ticks": cfg.fault_ticks, "serve_height": cfg.serve_height, "byz_redundant": cfg.byz_redundant})
 }
 
 fn cfg_from(v: &Value) -> SyncCfg {
@@ -805,6 +849,7 @@ fn cfg_from(v: &Value) -> SyncCfg {
 		compact_server: v["compact_server"].as_bool().unwrap_or(false),
 		fault_ticks: v["fault_ticks"].as_u64().unwrap_or(0),
 		serve_height: v["serve_height"].as_u64().unwrap_or(0),
+		byz_redundant: v["byz_redundant"].as_bool().unwrap_or(false),
 	}
 }
 
@@ -845,7 +890,13 @@ pub fn runs_for_c16(world: &World, res: &mut crate::sim::CaseResult, seed: u64, 
 		plan.push((true, true, 1));
 		plan.push((false, true, 2));
 	}
+	if !long && case % 2 == 1 {
+		// a byzantine segment the validation does not bind, through the wire and the real loop
+		plan.push((true, true, 9));
+	}
 	for (i, (pibd, faulty, restarts)) in plan.into_iter().enumerate() {
+		let byz = restarts == 9;
+		let restarts = if byz { 0 } else { restarts };
 		let mut rr = rng.fork(&format!("syncloop{}", i));
 		let cfg = SyncCfg {
 			prop: "C16".into(),
@@ -856,6 +907,7 @@ pub fn runs_for_c16(world: &World, res: &mut crate::sim::CaseResult, seed: u64, 
 			compact_server: long,
 			fault_ticks: if faulty { rr.range(60, 220) } else { 0 },
 			serve_height: state_sync_height(world, pibd),
+			byz_redundant: byz,
 		};
 		let rs = rr.next_u64();
 		let out = sync_loop_run(world, rs, &format!("sync16-c{}r{}", case, i), &cfg);
@@ -920,6 +972,7 @@ pub fn case_c03(tier: &str, seed: u64, case: u64) -> crate::sim::CaseResult {
 			compact_server: false,
 			fault_ticks: if faulty { rr.range(40, 160) } else { 0 },
 			serve_height: if body_only { 0 } else { state_sync_height(&world, pibd) },
+			byz_redundant: false,
 		};
 		if !body_only && cfg.serve_height < 30 {
 			// too short for a state sync (the archive header would be genesis)
